@@ -560,7 +560,7 @@ fn gen_asc_line(rng: &mut Rng) -> String {
         1 => 0,
         _ => rng.usize_below(12),
     };
-    let data: Vec<String> = (0..nbytes).map(|_| if rng.chance(1, 20) { "zz".to_string() } else { format!("{:02x}", rng.next_u8()) }).collect();
+    let data: Vec<String> = (0..nbytes).map(|_| if rng.chance(1, 20) { (*rng.pick(&["zz", "ä", "1ä", "ä1", "€", "0"])).to_string() } else { format!("{:02x}", rng.next_u8()) }).collect();
     match rng.below(8) {
         0 => format!("{} {} {} {} d {} {} Length = 0 BitCount = 0 ID = 879", t, ch, id, dir, dlc, data.join(" ")),
         1 => format!("{} CANFD {} {} {} 1 0 d {} {} {} 0 0 0 0 0 0 0 0", t, ch, dir, id, dlc, nbytes, data.join(" ")),
@@ -576,7 +576,7 @@ fn gen_asc_line(rng: &mut Rng) -> String {
 fn gen_logcat_line(rng: &mut Rng) -> String {
     let lvl = *rng.pick(&["I", "D", "W", "E", "V", "F", "X", ""]);
     // incl. whitespace-only tags of different lengths (all of them abbreviate to the same apid)
-    let tag = *rng.pick(&["auditd", "liblog", "ActivityManager", "ä", "A_B_C_D", "CamelCaseTagName", "", " ", "  ", "\t", "x y", "日本語タグ", "日本語タグ2", "T"]);
+    let tag = *rng.pick(&["auditd", "liblog", "ActivityManager", "ä", "A_B_C_D", "CamelCaseTagName", "", " ", "  ", "\t", "x y", "日本語タグ", "日本語タグ2", "T", "äö", " äö", "äö ", "aä", " aä", "öa", " öa"]);
     match rng.below(8) {
         0 => format!("{:>10}.{:03} {:5} {:5} {} {:<7}: {}", rng.below(100000), rng.below(1000), rng.below(99999), rng.below(99999), lvl, tag, "message text"),
         1 => format!("{:02}-{:02} {:02}:{:02}:{:02}.{:03} {:5} {:5} {} {}: {}", rng.below(14), rng.below(33), rng.below(25), rng.below(61), rng.below(61), rng.below(1000), rng.below(99999), rng.below(99999), lvl, tag, "threadtime message"),
@@ -598,7 +598,7 @@ fn gen_genlog_line(rng: &mut Rng) -> String {
         4 => "日本".into(),
         5 => "x".repeat(70000),
         6 => format!("Tag{}", rng.below(2000)),
-        7 => (*rng.pick(&["", " ", "  ", "   ", "\t"])).into(),
+        7 => (*rng.pick(&["", " ", "  ", "   ", "\t", "äö", " äö", "äö ", "aä", " aä", "öab", " öab"])).into(),
         _ => "a_b".into(),
     };
     match rng.below(6) {
